@@ -9,7 +9,10 @@ import time
 
 VERIF = os.path.dirname(os.path.dirname(os.path.abspath(__file__)))
 SPEC = os.path.join(VERIF, "spec")
-WORK = os.path.join(VERIF, "work")
+# VERIF_OUT relocates work/, evidence/ and replays/ (used only when checks are exercised against a scratch
+# copy of the repository, see lib/seeded.py); the registered commands never set it
+OUT = os.environ.get("VERIF_OUT", VERIF)
+WORK = os.path.join(OUT, "work")
 
 # Fresh page faults are very slow in this VM: a small young generation (pages reused) beats a
 # big heap by 2-6x.  -Xss for the recursive folds of the trace specs is set per call.
